@@ -68,6 +68,8 @@ class Prop(Check):
         "Proc.C13_linked_before_processing",
         "Proc.C13_resolved_precede_processing",
         "Proc.C13_unlinked_no_processing",
+        "Proc.C13_root_kept",
+        "Proc.C13_root_calls",
     ]
     DRIVER = "Drivers/Proc.lean"
     QUICK_CASES = 440
